@@ -92,12 +92,24 @@ struct Harness {
 				uint64_t k = it->template get<0>();
 				if(seen.count(k)) return c.fail("iter-dup", strf("iteration yields key %llu twice", (unsigned long long)k));
 				seen[k] = vget((*it).template get<1>());
+				// lookups from inside the loop body (the entry just visited, a neighbour in key order, the first and the last key) are
+				// reads: they must not disturb the walk (keys: the current one, some present key, the smallest and largest visited so far)
+				if(lookups_during_iteration) {
+					for(uint64_t q : {k, ref.begin()->first, seen.begin()->first, seen.rbegin()->first}) {
+						switch((steps + q) % 3) { case 0: { auto g = m->get(q); if(!g || vget(*g) != ref[q]) return c.fail("get-present", "get() from inside an iteration loop"); break; }
+						case 1: { auto f = m->find(q); if(f == m->end()) return c.fail("find-present", "find() from inside an iteration loop"); break; }
+						default: { if(vget((*m)[q]) != ref[q]) return c.fail("index-present", "operator[] on a present key from inside an iteration loop"); break; } }
+					}
+				}
 			}
+			if(lookups_during_iteration) count("iterations_with_lookups_inside_the_loop");
+			lookups_during_iteration = !lookups_during_iteration;
 			if(seen.size() != ref.size()) return c.fail("iter-missing", strf("iteration yields %zu entries, map has %zu", seen.size(), ref.size()));
 			for(auto &kv : ref) { auto s = seen.find(kv.first); if(s == seen.end() || s->second != kv.second) return c.fail("iter-missing", strf("iteration misses or misreports key %llu", (unsigned long long)kv.first)); }
 			if(ref.empty() && m->begin() != m->end()) return c.fail("iter", "begin()!=end() on an empty map");
 		}
 	}
+	bool lookups_during_iteration = false;
 	uint64_t absent_key(Rng &r) { for(int t = 0; t < 64; t++) { uint64_t k = universe[r.below(universe.size())]; if(!ref.count(k)) return k; } for(uint64_t k : universe) if(!ref.count(k)) return k; return ~0ull; }
 	uint64_t present_key(Rng &r) { if(ref.empty()) return ~0ull; size_t n = r.below(std::min<size_t>(ref.size(), 16)); auto it = ref.begin(); std::advance(it, n); return it->first; }
 
